@@ -384,8 +384,11 @@ fn cmd_check(args: &[String]) {
             if !f.reproducible {
                 out!("  NOTE: the violation was observed in the generating run, but replaying the recorded case does not show it again: the system under test behaves nondeterministically here (a source the simulator has no seam for, e.g. iteration over a std HashMap); the replay file holds the full, unminimised case");
             } else if let Err(e) = runner::verify_replay_fresh_process(&path, f) {
-                out!("HARNESS-ERROR replay is not reproducible: {e}");
-                std::process::exit(2);
+                // The harness is deterministic on the unchanged tree (tools/determinism.sh: every engine, thousands
+                // of seeds, three processes). If a recorded case replays differently in a fresh process, the tree
+                // under test carries state across runs or processes (a process-wide static, say): the violation
+                // stands as observed in this process, and the reader is told that the replay file may not show it.
+                out!("  NOTE: the recorded case replays differently in a fresh process ({}): the system under test keeps state across runs or processes; the violation stands as observed here", e.lines().next().unwrap_or(""));
             }
             out!("VIOLATION property={prop} replay={path}");
             violated = true;
